@@ -89,6 +89,12 @@ CHECKS = {
    text="For every state symbol, init, next, bad, constraint and output expression of generated systems (incl. chains of states linked only through init / only through next / init + hold) the real cone_of_influence{,_init,_comb} is computed and sufficiency is proved by unsat two-copy queries over all valuations/executions. Containment in inputs+states and syntactic tightness are checked against the harness's own dependency-graph reachability (side condition, not a solver query).",
    design_ref="DESIGN.md section 4 C17",
    note="Trusted: RefUnroll, RefSmt, z3 5.1. An inductive-step counterexample that no pair of real executions reproduces within 2*|states|+2 steps is counted inconclusive, not reported."),
+ "C06": dict(
+   technique="Kani/CBMC bounded model checking of the baa kernels that eval.rs calls (all operand values at concrete widths, unwinding assertions on) + SMT check of a syn-extracted encoding of the eval dispatch arms against RefSmt (all symbol values) + validation of the real eval_expr on enumerated boundary vectors against a big-integer reference",
+   category="other",
+   text="K: one #[kani::proof] per (kernel, width) with both operands kani::any(), compared with a u128/i128 reference and required to be is_equal to the canonically constructed value: widths 8/64 (+1/63 thorough) for all operators incl. symbolic shift amounts and 64-bit mul, 65/128 for comparisons (quick: 65) and and/or/xor/not/add/sub/negate/slice/extend/concat (thorough). D: the 21 un_op/bin_op arms of eval_expr_internal, the pop order of bin_op and the child order of foreach.rs are re-extracted from the current source on every run and each arm is proved equal to the SMT-LIB operator for all values at widths 1..129. V: about 10^6 evaluations of the real evaluator (three symbol stores, short-circuit values, canonical-representation clause) on all literal classes incl. shift amounts >= width and >= 2^32 - enumeration, not a universally quantified verdict, and said so in the evidence.",
+   design_ref="DESIGN.md section 4 C06",
+   note="Trusted: CBMC/Kani soundness within unwinding bounds, RefSmt, the big-integer evaluator. Outside: division/remainder (documented unimplemented), mul above 64 bit, two-word shifts in CBMC (out of memory), array kernels (std HashMap), the evaluator's work-list loop (covered by V only). Two dependency defects are recorded known findings (shl dirty bits, non-extensional array equality)."),
 }
 ALL = [f"C{i:02d}" for i in range(1, 21)]
 m = {
@@ -102,6 +108,8 @@ m = {
    "add_only": True,
  },
  "engines": [
+   {"name": "engine-K", "path": "kani/", "serves_properties": ["C06"],
+    "kind_free_text": "Kani 0.68 / CBMC 6.11 proof harnesses (generated by kani/gen.py, run by kani/kani_runner.py through ./check C06) over the baa bit-vector kernels that patronus' evaluator calls; failing harnesses are replayed natively before being reported"},
    {"name": "engine-S", "path": "harness/", "serves_properties": sorted(CHECKS.keys()),
     "kind_free_text": "real patronus code (path dependency on /repo, rebuilt every run) produces terms; an independent reference encoding (RefSmt/RefUnroll/RefBtor) + SMT solver (z3 5.1 primary, cvc5 1.0 and z3 4.8.12 second opinions) decides the property for all values; shapes are an enumerated bound; every sat model is replayed through an independent big-integer evaluator and the real evaluator before a VIOLATION is printed"},
  ],
